@@ -78,7 +78,9 @@ def run_shard(params, rec):
         return
     L = spec.L
     for i in range(params["n"]):
-        prog = jitlib.make_prog(spec, rng, pool, rng.randrange(2, 9), with_loop=False,
+        # delay-slot architectures: a counted loop puts a (possibly faulting) instruction in a delay slot
+        with_loop = spec.family == "mips32" and rng.random() < 0.5
+        prog = jitlib.make_prog(spec, rng, pool, rng.randrange(2, 9), with_loop=with_loop,
                                 fault_bias=rng.choice([0.3, 0.5, 0.8]))
         maxline = rng.choice([1, 2, 4, 50])
         opts = dict(jit_maxline=maxline, max_exec_per_call=rng.choice([0, 1, 3]))
@@ -119,10 +121,14 @@ def run_shard(params, rec):
         if maxline == 1:
             pos = "single"
         wit["faulting"] = "%x: %s" % (P, prog.instrs[idx][2])
+        in_slot = P in prog.delay_slots
+        if in_slot:
+            rec.count("fault_in_delay_slot")
         # ---- pre-instruction snapshot: single-step reference of the same back end stopped on P
+        # (not for a delay slot: a breakpoint there would split the branch from its slot)
         pre = jitlib.Outcome()
         refj = jitlib.new_jitter(spec, backend, prog, dict(jit_maxline=1, max_exec_per_call=1))
-        state = dict(hit=False, early=False)
+        state = dict(hit=in_slot, early=False)
 
         def stop_at_p(j):
             state["hit"] = True
@@ -136,14 +142,15 @@ def run_shard(params, rec):
         for bit in list(range(1, 5)) + [10, 25]:
             refj.add_exception_handler(1 << bit, early_exc)
         try:
-            refj.run(L.CODE)
+            if not in_slot:
+                refj.run(L.CODE)
         except Exception:
             state["early"] = True
         if not state["hit"] or state["early"]:
             rec.count("reference_did_not_reach_fault_pc")
             continue
         jitlib.snapshot(refj, spec, pre)
-        d = jitlib.diff_outcomes(pre, out, spec, skip=("exception flags", "raised"))
+        d = None if in_slot else jitlib.diff_outcomes(pre, out, spec, skip=("exception flags", "raised"))
         rec.count("snapshots_compared")
         rec.distinct("%s|%s|%s|%s" % (spec.mname, backend, mnemonic, pos))
         rec.count("position:" + pos)
@@ -192,7 +199,8 @@ def run_shard(params, rec):
         d2 = jitlib.diff_outcomes(nofault, res, spec)
         rec.count("resumes_compared")
         if d2 is not None:
-            rec.fail("%s: resumed run differs from the run without fault (%s, %s)" % (backend, d2[0], spec.family),
+            rec.fail("%s: resumed run differs from the run without fault (%s, %s%s)" % (
+                backend, d2[0], spec.family, ", fault in a delay slot" if in_slot else ""),
                      "%s %s: after resuming at %s: %s %s" % (spec.mname, backend, wit["faulting"], d2[0], d2[1]),
                      dict(wit, diff=d2, nofault=nofault.summary(spec), resumed=res.summary(spec)))
             continue
